@@ -84,7 +84,7 @@ def main(tier: str) -> int:
         def build(n_):
             sts = [(I_("http://e/s"), I_("http://e/p"), ("lit", "a", "", "")), (I_("http://e/s"), I_("http://e/p"), ("lit", "L" * n_, "", "")),
                    (I_("http://e/s2"), I_("http://e/p"), ("lit", "z", "", ""))]
-            d_ = impl.serialize(impl.default_cfg(integ="generic", entry="flat_to_file", sclass="triple", ltype=1, frame_size=2, preset=(8, 4, 0)), sts)
+            d_ = impl.serialize(impl.default_cfg(integ="generic", entry="flat_to_file", sclass="triple", ltype=1, frame_size=1, preset=(8, 4, 0)), sts)
             return d_, [e - b for _, b, e in wire.frame_extents(d_)]
         n_ = target
         for _ in range(4):
